@@ -634,9 +634,11 @@ func init() {
 // c15Pairs: JSON field -> configuration field where the names differ on
 // purpose (confirmed by reading).
 var c15Pairs = map[string]string{
-	".Config.ConnectionManager":                 "ConnMgr",  // cluster: connection_manager section <-> ConnMgr struct
-	"api/ipfsproxy.Config.NodeMultiaddress":     "NodeAddr", // node_multiaddress <-> NodeAddr
-	"ipfsconn/ipfshttp.Config.NodeMultiaddress": "NodeAddr", // node_multiaddress <-> NodeAddr
+	".Config.ConnectionManager":                 "ConnMgr",         // cluster: connection_manager section <-> ConnMgr struct
+	"api/ipfsproxy.Config.NodeMultiaddress":     "NodeAddr",        // node_multiaddress <-> NodeAddr
+	"ipfsconn/ipfshttp.Config.NodeMultiaddress": "NodeAddr",        // node_multiaddress <-> NodeAddr
+	"api/rest.Config.SSLCertFile":               "pathSSLCertFile", // the path as given (the TLS field holds the loaded certificate)
+	"api/rest.Config.SSLKeyFile":                "pathSSLKeyFile",  // idem
 }
 
 func r159(c *Ctx, r *R) {
